@@ -1190,8 +1190,11 @@ class Key(object):
                 if len(key) == 34 and key[-1:] == b'\x01':
                     self.compressed = True
                     key = key[:-1]
-                else:
+                elif len(key) == 33:
                     self.compressed = False
+                else:
+                    raise BKeyError("Invalid WIF private key, expected a version byte, a 32 byte key and an optional "
+                                    "compression flag 01")
                 key_byte = key[1:]
                 key_hex = key_byte.hex()
             else:
